@@ -24,7 +24,7 @@ from . import solve, native
 
 ROOT = os.path.dirname(os.path.dirname(os.path.abspath(__file__)))
 Z3_TIMEOUT = 10.0
-FP_TIMEOUT = 300.0
+FP_TIMEOUT = 240.0
 
 
 def sanitize(s: str) -> str:
@@ -124,15 +124,28 @@ class PropertyRun:
                 self.assumptions.append(f"assumed contract (not verified here): {c.key} - {c.doc}")
                 continue
             try:
-                x = extract(c.relpath, c.qualname)
+                if c.source:
+                    import ast as _ast, hashlib as _hl
+                    from .extract import Extracted
+                    node = _ast.parse(c.source).body[0]
+                    x = Extracted("<driver>", c.qualname, node, c.source, _hl.sha256(c.source.encode()).hexdigest(), 1,
+                                  getattr(node, "end_lineno", 1), [])
+                else:
+                    x = extract(c.relpath, c.qualname)
             except StaleContract as e:
                 self.stale.append(f"{c.key}: {e}")
                 continue
             info = {"function": c.key, "file": c.relpath, "sha256": x.sha256, "lines": [x.lineno, x.end_lineno]}
             try:
                 values.reset_names()
-                eng = Engine(self.reg, c, x, self.pid)
+                if c.engine == "fp":
+                    from .fpengine import FPEngine
+                    eng = FPEngine(self.reg, c, x, self.pid, quick_prune=False)
+                else:
+                    eng = Engine(self.reg, c, x, self.pid)
                 vcs = eng.run()
+                if eng.inlined:
+                    info["inlined_from_repo"] = [{"file": k[0], "function": k[1], "sha256": v} for k, v in sorted(eng.inlined.items())]
                 info["paths"] = eng.paths
                 info["obligations"] = sum(1 for v in vcs if v.expect == "unsat")
                 for v in vcs:
@@ -171,7 +184,7 @@ class PropertyRun:
         for v in self.vcs:
             neg = z3.Not(v.goal) if v.expect == "unsat" else z3.BoolVal(True)
             smt = solve.vc_to_smt2(v.hyps, neg, self.vc_axioms[v.name])
-            to = FP_TIMEOUT if "FloatingPoint" in smt else Z3_TIMEOUT
+            to = FP_TIMEOUT if "fp." in smt else Z3_TIMEOUT
             if v.expect == "sat":
                 to = 2.0      # reachability probes: only `unsat` (vacuity) matters; unknown = not refuted
             items.append((v.name, smt, to))
